@@ -872,7 +872,7 @@ def _format_overrides_of(ctx, F, adt, need, fmt):
             ctx.violation(key, f.loc(bi, si), '`%s` is set to %s instead of the format constant %s' % (name, expr_str(e)[:40], val))
 
 
-@rule('WRITE-LOOP-PROGRESS', ['C09', 'C18'], floor=2)
+@rule('WRITE-LOOP-PROGRESS', ['C09', 'C18', 'C13'], floor=2)
 def write_loop_progress(ctx):
     """In the write loop of a splitting writer an iteration either copies bytes from the caller's buffer or
     dispatches the full unit. On the branch where the amount to copy is zero (the staging buffer is already
@@ -922,6 +922,45 @@ def write_loop_progress(ctx):
         other = e[0] if pol else e[1]   # the edge taken when nothing is copied
         # blocks reachable from that edge without passing the loop header again
         reach = w.reach_from([other], stop={h})
+        # the room left in the unit is measured in every iteration: a length of the staging buffer taken before the loop
+        # and used inside it is stale after the first dispatch (later units get another size than the configured one)
+        stale = []
+        for bi, t, c in w.calls():
+            if c.is_('Vec::len') and t['args'] and bi not in body and w.dominates(bi, h):
+                a0 = pw.operand(t['args'][0], 0, '%d:T' % bi)
+                base = a0[1] if a0[0] == 'ref' else a0
+                if self_field_of(base) == (fld,):
+                    d = t['dest']['l']
+                    # used inside the loop (directly or through the values computed from it before the loop)?
+                    from rules.io import value_closure
+                    derived = {d}
+                    changed = True
+                    while changed:
+                        changed = False
+                        for b2, blk in enumerate(w.blocks):
+                            if b2 in body or blk['cleanup']:
+                                continue
+                            for st in blk['stmts']:
+                                if st['k'] == 'assign' and not st['lhs']['p'] and st['lhs']['l'] not in derived:
+                                    if any((op_place(st['rv'].get(k2)) or {}).get('l') in derived for k2 in ('o', 'a', 'b') if isinstance(st['rv'].get(k2), dict)):
+                                        derived.add(st['lhs']['l'])
+                                        changed = True
+                            tt = blk['term']
+                            if tt['k'] == 'call' and not tt['dest']['p'] and tt['dest']['l'] not in derived and \
+                                    any((op_place(a) or {}).get('l') in derived for a in tt['args']):
+                                derived.add(tt['dest']['l'])
+                                changed = True
+                    used_in_loop = any(
+                        any((op_place(st['rv'].get(k2)) or {}).get('l') in derived for k2 in ('o', 'a', 'b') if isinstance(st['rv'].get(k2), dict))
+                        for b2 in body for st in w.blocks[b2]['stmts'] if st['k'] == 'assign') or any(
+                        w.blocks[b2]['term']['k'] == 'call' and any((op_place(a) or {}).get('l') in derived for a in w.blocks[b2]['term']['args'])
+                        for b2 in body)
+                    if used_in_loop:
+                        stale.append(bi)
+        if stale:
+            ctx.violation(key + ':fresh-clamp', w.loc(stale[0]), 'the fill level of `self.%s` is read before the loop (%s) and the value is used inside it: after '
+                          'the first dispatch in the same write call the room left in the unit is stale and later units are cut at the '
+                          'wrong size (unit boundaries depend on the write partition)' % (fld, w.loc(stale[0])))
         if any(d in reach for d in dispatch):
             ctx.ok(key, w.loc(s), 'when %s is false the dispatch call is still reached in the same iteration' % expr_str(cond)[:60])
         else:
@@ -929,3 +968,80 @@ def write_loop_progress(ctx):
                           'copies nor dispatches: after a failed dispatch the next write() never returns' % expr_str(cond)[:60])
     if n == 0:
         ctx.anchor_missing('write loop with a staging buffer and a dispatch method')
+
+
+@rule('END-FLAG-SET', ['C16', 'C12'], floor=1)
+def end_flag_set(ctx):
+    """When the XZ reader has parsed index and footer and does not go on to a further stream, it records the
+    end of the data in its end flag (the bool that makes `read` return Ok(0) at once) before it returns:
+    every Ok return reachable after the footer parse, other than the one taken when the next-stream probe
+    found a stream, passes a store `flag := true`. Otherwise a later `read` parses whatever follows the
+    stream as another block header (over-read, spurious errors)."""
+    F = ctx.facts
+    ms = methods_of(F, 'XZReader')
+    adt = F.adt('XZReader')
+    if not ms or not adt:
+        return ctx.anchor_missing('XZReader')
+    # end flag: bool field tested at the entry of read with an immediate Ok(0)
+    from rules.io import read_impls, effective_read
+    flags = set()
+    for rf in read_impls(F):
+        if rf.self_adt and last_seg(rf.self_adt) == 'XZReader':
+            g = effective_read(F, rf)
+            pg = Prov(g)
+            for s in g.reachable:
+                e = switch_edges(g, s)
+                if e is None:
+                    continue
+                cond = pg.operand(g.blocks[s]['term']['discr'], 0, '%d:T' % s)
+                for x in expr_walk(cond):
+                    if x[0] == 'field':
+                        sf = self_field_of(x)
+                        if sf and len(sf) == 1 and any(fl['name'] == sf[0] and fl['ty'] == 'bool' for fl in adt['variants'][0]['fields']):
+                            if g.dominates(s, max(g.reachable)) or s <= 3:
+                                flags.add(sf[0])
+    flags -= {'allow_multiple_streams'}
+    if not flags:
+        return ctx.anchor_missing('XZReader end flag')
+    n = 0
+    for f in ms:
+        foot = [bi for bi, t, c in f.calls() if c.is_('StreamFooter::parse') or c.name == 'parse_index_and_footer']
+        if not foot or f.name == 'parse_index_and_footer':
+            continue
+        prov = Prov(f)
+        stores = set()
+        for bi, si, name, rv in self_field_stores(f):
+            e = prov.rvalue(rv, 0, '%d:%d' % (bi, si))
+            if name in flags and e[0] == 'const' and e[2] in (1, True):
+                stores.add(bi)
+        # true edges of the next-stream probe
+        probe_true = set()
+        for bi, t, c in f.calls():
+            for g in F.resolve_callee(c):
+                if g.self_adt == f.self_adt and g.d.get('output', '').startswith('std::result::Result<bool') and _pulls(F, g, set()):
+                    # the bool payload of this call: find switches whose condition derives from it
+                    for s in f.reachable:
+                        e = switch_edges(f, s)
+                        if e is None:
+                            continue
+                        cond = prov.operand(f.blocks[s]['term']['discr'], 0, '%d:T' % s)
+                        if any(x[0] == 'call' and len(x) > 3 and x[3] is t for x in expr_walk(cond)):
+                            probe_true.add(e[1])
+        for fb in foot:
+            n += 1
+            key = '%s:end-recorded-after-footer' % f.key
+            start = [f.blocks[fb]['term'].get('target')]
+            region = f.reach_from([b for b in start if b is not None], stop=stores | probe_true)
+            bad = []
+            for b in region:
+                for st in f.blocks[b]['stmts']:
+                    if st['k'] == 'assign' and st['lhs']['l'] == 0 and not st['lhs']['p'] and st['rv']['r'] == 'agg' and st['rv'].get('variant_name') == 'Ok':
+                        bad.append(b)
+            if bad:
+                ctx.violation(key, f.loc(sorted(bad)[0]), 'after index and footer were parsed the function can return Ok at %s without setting `%s` '
+                              'and without having found a further stream: the next read treats the bytes after the stream as a block '
+                              'header' % (f.loc(sorted(bad)[0]), '/'.join(sorted(flags))))
+            else:
+                ctx.ok(key, f.loc(fb), 'every Ok return after the footer either follows a found stream or sets `%s`' % '/'.join(sorted(flags)))
+    if n == 0:
+        ctx.anchor_missing('footer parse call in XZReader')
